@@ -59,7 +59,10 @@ class ConstantFoldInterpPattern(RewritePattern):
                 for operand in op.operands
             )
             results = self.interpreter.run_op(op, args)
-        except InterpretationError:
+        except (InterpretationError, AssertionError, ArithmeticError):
+            # The interpreter cannot evaluate the operation on these operands (e.g. a
+            # division by zero or a shift amount outside of the type's width, which the
+            # interpreter functions reject with assertions): leave it in place.
             return
 
         new_ops: list[Operation] = []
